@@ -11,8 +11,8 @@ CONSTANTS
   MaxPower = 1
   PreNames = {}
   PreSize = 2
-  ForeignNames = {}
-  MaxForeign = 0
+  ForeignNames <- ForeignQ
+  MaxForeign = 1
   OptSet <- AllOpts
 CONSTRAINT RevBound
 INVARIANTS TypeOK DurSane FinOnlyAfterDurable NothingOwedIsMissing FinqIsDurable Custody SyncOnOpenFile
